@@ -163,7 +163,12 @@ class FluffConfig:
         from sqlfluff.core.dialects import dialect_selector
 
         if dialect is not None:
-            self._configs["core"]["dialect_obj"] = dialect_selector(dialect)
+            try:
+                self._configs["core"]["dialect_obj"] = dialect_selector(dialect)
+            except KeyError:
+                # An unknown dialect (e.g. from a config file or an inline
+                # directive) is a configuration error, not an internal one.
+                raise SQLFluffUserError(f"Error: Unknown dialect '{dialect}'")
         elif require_dialect:
             self.verify_dialect_specified()
 
